@@ -41,7 +41,7 @@ class World:
         self.p, self.warm = p, warm
         self.h = make_sketch(p, warm)
         self.ref = set()
-        self.alpha = [f'v{i}' for i in range(warm + 3)]
+        self.alpha = [f'v{i}' for i in range(warm + 2)] + ['']      # the empty string is a value like any other
         self.order_seen = order_seen
 
     def enabled(self):
